@@ -1,11 +1,12 @@
 import Proofs.Lemmas.TimeSeries
+import Proofs.Lemmas.EvalIndex
 /-
 C16 — `eval()` and the time-series helpers compute what their definitions say.
 
 Part 1 (this section): `lag`, `lead`, `diff`, `dlog` of `fsic/functions.py`.  All statements are for arrays of
 EVERY length (including 0), EVERY integer shift (zero, negative, `|p| ≥ n`), every fill value and every element
-type (subtraction and `log` are parameters).  Part 2 (`Fsic.C16` continued in `Proofs/C16Eval.lean`,
-re-exported below) covers `eval()`.
+type (subtraction and `log` are parameters).  Part 2 (further down) covers `eval()`: the rewriting of one bracket
+group by `_resolve_expression_indexes`, and the namespace assembly.
 -/
 set_option linter.unusedSimpArgs false
 namespace Fsic.C16
@@ -248,5 +249,238 @@ theorem dlog_pure (sub : α → α → α) (log : α → α) (m : Mem α) (x : N
 
 example : (diffM (· - ·) (⟨[[10, 20, 40]]⟩ : Mem Int) 0 1 0).map (fun r => (r.1.read 0, r.1.read r.2)) =
     some ([10, 20, 40], [0, 10, 20]) := by decide
+
+
+/-! ## Part 2 — `eval()`
+
+Statements are about the rewriting of ONE bracket group (`resolveGroupSem`: what `resolve_indexes` makes of
+`match.group(1)`) for every span (`Span` is a parameter: membership + location), and about the namespace.
+The substitution loop over the whole expression (`subAll`, the regex) is tied to the code by the exhaustive
+correspondence check only. -/
+
+open Fsic.EvalIdx
+
+/-- **A backticked label is rewritten to the position label indexing uses.**  `txt` is the bracket content
+    (blanks around the backticks allowed); `l` is the label object the text denotes (the string if the span has
+    it, else the integer it spells); `obj[name, l]` reads `values[sp.locate l]`. -/
+theorem resolve_index_label (sp : Span) (txt : List Char) (l : Label) (k : Int) (py : Bool)
+    (hbt : txt.contains '`' = true) (hcol : ∀ c ∈ txt, c ≠ ':')
+    (hden : denotes sp (periodText txt) = some l) (hloc : sp.locate l = .pos k py) :
+    resolveGroupSem sp (some txt) = .ok (.index k) := by
+  have hm : '`' ∈ txt := by simpa using hbt
+  simp [resolveGroupSem, splitOn_no_sep ':' txt hcol, resolveParts, resolveSingle, resolveIndexInSpan, hm, hden,
+    hloc, ixOfLoc]
+
+example : resolveGroupSem (listSpan [.int 2000, .int 2001, .int 2002]) (some [' ', '`', '2', '0', '0', '1', '`', ' '])
+    = .ok (.index 1) := rfl
+example : resolveGroupSem (listSpan [.str ['2', '0', '0', '1'], .int 2001]) (some ['`', '2', '0', '0', '1', '`'])
+    = .ok (.index 0) := rfl
+example : periodText ['`', '2', '0', '0', '1', '`'] = ['2', '0', '0', '1'] :=
+  periodText_backticked ['2', '0', '0', '1'] (by decide)
+
+/-- Resolution of one backticked slice component to a bound. -/
+theorem startBound_label (sp : Span) (a : List Char) (la : Label) (ka : Int) (pa : Bool)
+    (ha : a.contains '`' = true) (hda : denotes sp (periodText a) = some la) (hla : sp.locate la = .pos ka pa) :
+    startBound sp a = .ok (.val ka) := by
+  have hm : '`' ∈ a := by simpa using ha
+  simp [startBound, hm, contains_imp_not_isEmpty a '`' ha, resolveIndexInSpan, ha, hda, hla, ixOfLoc]
+
+theorem stopBound_label (sp : Span) (b : List Char) (lb : Label) (kb : Int) (pb : Bool)
+    (hb : b.contains '`' = true) (hdb : denotes sp (periodText b) = some lb) (hlb : sp.locate lb = .pos kb pb) :
+    stopBound sp b = .ok (.val (if pb then kb + 1 else kb)) := by
+  have hm : '`' ∈ b := by simpa using hb
+  simp [stopBound, hm, contains_imp_not_isEmpty b '`' hb, resolveIndexInSpan, hb, hdb, hlb, ixOfLoc]
+
+/-- **Backticked label slices are inclusive of the stop label** — when the locator returns Python ints
+    (list / tuple / range spans, pandas `get_loc`): `` [`a`:`b`] `` becomes `[pos a : pos b + 1 :]`, exactly the
+    bounds `_resolve_period_slice` computes for `obj[name, a:b]`.  (`a`, `b` are the two components as they
+    stand between the brackets; the code strips them first.) -/
+theorem resolve_labels_spec (sp : Span) (a b : List Char) (la lb : Label) (ka kb : Int)
+    (hca : ∀ c ∈ a, c ≠ ':') (hcb : ∀ c ∈ b, c ≠ ':')
+    (ha : (strip a).contains '`' = true) (hb : (strip b).contains '`' = true)
+    (hda : denotes sp (periodText (strip a)) = some la) (hdb : denotes sp (periodText (strip b)) = some lb)
+    (hla : sp.locate la = .pos ka true) (hlb : sp.locate lb = .pos kb true) :
+    resolveGroupSem sp (some (a ++ ':' :: b)) = .ok (.slice (.val ka) (.val (kb + 1)) []) ∧
+    labelSliceBounds sp la lb = .ok (ka, kb + 1) := by
+  refine ⟨?_, by simp [labelSliceBounds, hla, hlb]⟩
+  simp only [resolveGroupSem, splitOn_append_sep ':' a b hca, splitOn_no_sep ':' b hcb, resolveParts]
+  rw [startBound_label sp _ la ka true ha hda hla, stopBound_label sp _ lb kb true hb hdb hlb]
+  rfl
+
+example : resolveGroupSem (listSpan [.int 2000, .int 2001, .int 2002, .int 2003])
+    (some ['`', '2', '0', '0', '1', '`', ':', ' ', '`', '2', '0', '0', '2', '`']) =
+    .ok (.slice (.val 1) (.val 3) []) := rfl
+
+/-- With a step: the step text is copied verbatim (stripped). -/
+theorem resolve_labels_spec_step (sp : Span) (a b s : List Char) (la lb : Label) (ka kb : Int)
+    (hca : ∀ c ∈ a, c ≠ ':') (hcb : ∀ c ∈ b, c ≠ ':') (hcs : ∀ c ∈ s, c ≠ ':')
+    (ha : (strip a).contains '`' = true) (hb : (strip b).contains '`' = true)
+    (hda : denotes sp (periodText (strip a)) = some la) (hdb : denotes sp (periodText (strip b)) = some lb)
+    (hla : sp.locate la = .pos ka true) (hlb : sp.locate lb = .pos kb true) :
+    resolveGroupSem sp (some (a ++ ':' :: (b ++ ':' :: s))) = .ok (.slice (.val ka) (.val (kb + 1)) (strip s)) := by
+  simp only [resolveGroupSem, splitOn_append_sep ':' a _ hca, splitOn_append_sep ':' b s hcb,
+    splitOn_no_sep ':' s hcs, resolveParts]
+  rw [startBound_label sp _ la ka true ha hda hla, stopBound_label sp _ lb kb true hb hdb hlb]
+  rfl
+
+/-- Open start: `` [:`b`] `` keeps the start empty (Python's own "from the beginning") and includes `b`. -/
+theorem resolve_labels_open_start (sp : Span) (a b : List Char) (lb : Label) (kb : Int)
+    (hca : ∀ c ∈ a, c ≠ ':') (hcb : ∀ c ∈ b, c ≠ ':') (ha : strip a = [])
+    (hb : (strip b).contains '`' = true) (hdb : denotes sp (periodText (strip b)) = some lb)
+    (hlb : sp.locate lb = .pos kb true) :
+    resolveGroupSem sp (some (a ++ ':' :: b)) = .ok (.slice .empty (.val (kb + 1)) []) := by
+  simp only [resolveGroupSem, splitOn_append_sep ':' a b hca, splitOn_no_sep ':' b hcb, resolveParts]
+  rw [stopBound_label sp _ lb kb true hb hdb hlb, ha]
+  rfl
+
+/-- Open stop: `` [`a`:] `` starts at `a` and keeps the stop empty (Python's own "to the end"). -/
+theorem resolve_labels_open_stop (sp : Span) (a b : List Char) (la : Label) (ka : Int) (pa : Bool)
+    (hca : ∀ c ∈ a, c ≠ ':') (hcb : ∀ c ∈ b, c ≠ ':') (hb : strip b = [])
+    (ha : (strip a).contains '`' = true) (hda : denotes sp (periodText (strip a)) = some la)
+    (hla : sp.locate la = .pos ka pa) :
+    resolveGroupSem sp (some (a ++ ':' :: b)) = .ok (.slice (.val ka) .empty []) := by
+  simp only [resolveGroupSem, splitOn_append_sep ':' a b hca, splitOn_no_sep ':' b hcb, resolveParts]
+  rw [startBound_label sp _ la ka pa ha hda hla, hb]
+  rfl
+
+example : resolveGroupSem (listSpan [.int 2000, .int 2001, .int 2002]) (some [':', '`', '2', '0', '0', '1', '`'])
+    = .ok (.slice .empty (.val 2) []) := rfl
+
+/-- The property's FULL statement about label slices: for EVERY span, `` [`a`:`b`] `` selects up to and
+    including `pos b`, as label indexing does. -/
+def LabelStopInclusive : Prop :=
+  ∀ (sp : Span) (a b : List Char) (la lb : Label) (ka kb : Int) (pa pb : Bool),
+    (∀ c ∈ a, c ≠ ':') → (∀ c ∈ b, c ≠ ':') →
+    (strip a).contains '`' = true → (strip b).contains '`' = true →
+    denotes sp (periodText (strip a)) = some la → denotes sp (periodText (strip b)) = some lb →
+    sp.locate la = .pos ka pa → sp.locate lb = .pos kb pb →
+    resolveGroupSem sp (some (a ++ ':' :: b)) = .ok (.slice (.val ka) (.val (kb + 1)) [])
+
+/-- FALSE of the code on NumPy-array spans (finding `eval-numpy-span-label-stop`): the fallback locator returns
+    a NumPy integer, `isinstance(stop, int)` is False, and the stop stays exclusive.  `resolve_labels_spec` is the
+    `_partial` theorem (guard: the locator returns Python ints). -/
+theorem label_stop_inclusive_false_at_witness : ¬ LabelStopInclusive := by
+  intro h
+  have h1 := h (numpySpan [.int 2000, .int 2001, .int 2002]) ['`', '2', '0', '0', '1', '`'] ['`', '2', '0', '0', '2', '`']
+    (.int 2001) (.int 2002) 1 2 false false (by decide) (by decide) (by decide) (by decide) rfl rfl rfl rfl
+  have h2 : resolveGroupSem (numpySpan [.int 2000, .int 2001, .int 2002])
+      (some (['`', '2', '0', '0', '1', '`'] ++ ':' :: ['`', '2', '0', '0', '2', '`'])) =
+      .ok (.slice (.val 1) (.val 2) []) := rfl
+  rw [h2] at h1
+  injection h1 with h1
+  injection h1 with _ h1 _
+  injection h1 with h1
+  exact absurd h1 (by decide)
+
+/-- The `_partial` form of `LabelStopInclusive`: the same statement under the guard `pa = pb = true`. -/
+theorem resolve_labels_spec_partial (sp : Span) (a b : List Char) (la lb : Label) (ka kb : Int) (pa pb : Bool)
+    (hpy : pa = true ∧ pb = true)
+    (hca : ∀ c ∈ a, c ≠ ':') (hcb : ∀ c ∈ b, c ≠ ':')
+    (ha : (strip a).contains '`' = true) (hb : (strip b).contains '`' = true)
+    (hda : denotes sp (periodText (strip a)) = some la) (hdb : denotes sp (periodText (strip b)) = some lb)
+    (hla : sp.locate la = .pos ka pa) (hlb : sp.locate lb = .pos kb pb) :
+    resolveGroupSem sp (some (a ++ ':' :: b)) = .ok (.slice (.val ka) (.val (kb + 1)) []) := by
+  obtain ⟨rfl, rfl⟩ := hpy
+  exact (resolve_labels_spec sp a b la lb ka kb hca hcb ha hb hda hdb hla hlb).1
+
+/-- A label that is neither a string label of the span nor spells an integer label of it: KeyError, never
+    another period. -/
+theorem missing_label_keyerror (sp : Span) (txt : List Char)
+    (hbt : txt.contains '`' = true) (hcol : ∀ c ∈ txt, c ≠ ':') (hden : denotes sp (periodText txt) = none) :
+    resolveGroupSem sp (some txt) = .error .keyError := by
+  have hm : '`' ∈ txt := by simpa using hbt
+  simp [hm, resolveGroupSem, splitOn_no_sep ':' txt hcol, resolveParts, resolveSingle, resolveIndexInSpan, hbt, hden]
+
+example : resolveGroupSem (listSpan [.int 2000, .int 2001]) (some ['`', '1', '9', '`']) = .error .keyError := rfl
+
+/-! ### Purely positional indexes and slices
+
+`_resolve_expression_indexes` rewrites EVERY bracket group of an expression that contains a backtick anywhere —
+also the groups that have no backtick themselves. -/
+
+/-- The property's FULL statement: a purely positional slice `start:stop` keeps its meaning. -/
+def PositionalUntouched : Prop :=
+  ∀ (sp : Span) (start stop : List Char) (i j : Int),
+    (∀ c ∈ start, c ≠ ':') → (∀ c ∈ stop, c ≠ ':') →
+    (strip start).contains '`' = false → (strip stop).contains '`' = false →
+    parsePyInt (strip start) = some i → parsePyInt (strip stop) = some j →
+    resolveGroupSem sp (some (start ++ ':' :: stop)) = .ok (.slice (.val i) (.val j) [])
+
+/-- FALSE of the code (finding `eval-positional-stop-shifted`): `[0:2]` becomes `[0:3:]`. -/
+theorem positional_untouched_false_at_witness : ¬ PositionalUntouched := by
+  intro h
+  have h1 := h (listSpan []) ['0'] ['2'] 0 2 (by decide) (by decide) rfl rfl rfl rfl
+  have h2 : resolveGroupSem (listSpan []) (some (['0'] ++ ':' :: ['2'])) = .ok (.slice (.val 0) (.val 3) []) := rfl
+  rw [h2] at h1
+  injection h1 with h1
+  injection h1 with _ h1 _
+  injection h1 with h1
+  exact absurd h1 (by decide)
+
+/-- FALSE of the code (finding `eval-positional-nonliteral`): a positional index that is an expression, here
+    `1+1`, is not kept — `int('1+1')` raises ValueError, for every span. -/
+theorem positional_nonliteral_false_at_witness (sp : Span) :
+    resolveGroupSem sp (some ['1', '+', '1']) = .error .valueError := rfl
+
+/-- `_partial` (1): a positional index that is an integer literal keeps its value (`[ 7 ]`, `[-1]`, `[+1]`). -/
+theorem positional_index_partial (sp : Span) (txt : List Char) (i : Int)
+    (hbt : txt.contains '`' = false) (hcol : ∀ c ∈ txt, c ≠ ':') (hi : parsePyInt (strip txt) = some i) :
+    resolveGroupSem sp (some txt) = .ok (.index i) := by
+  have hm : '`' ∉ txt := by simpa using hbt
+  simp [hm, resolveGroupSem, splitOn_no_sep ':' txt hcol, resolveParts, resolveSingle, resolveIndexInSpan, hbt, hi]
+
+example : resolveGroupSem (listSpan []) (some [' ', '-', '1', ' ']) = .ok (.index (-1)) := rfl
+
+/-- `_partial` (2): a positional slice WITHOUT an explicit stop keeps its meaning: an integer-literal (or empty)
+    start is kept, the stop stays empty, the step text is copied. -/
+theorem positional_slice_partial (sp : Span) (start stop step : List Char) (i : Int)
+    (hc1 : ∀ c ∈ start, c ≠ ':') (hc2 : ∀ c ∈ stop, c ≠ ':') (hc3 : ∀ c ∈ step, c ≠ ':')
+    (hbt : (strip start).contains '`' = false) (hne : (strip start).isEmpty = false)
+    (hi : parsePyInt (strip (strip start)) = some i) (hstop : strip stop = []) :
+    resolveGroupSem sp (some (start ++ ':' :: stop)) = .ok (.slice (.val i) .empty []) ∧
+    resolveGroupSem sp (some (start ++ ':' :: (stop ++ ':' :: step))) = .ok (.slice (.val i) .empty (strip step)) := by
+  have hs : startBound sp (strip start) = .ok (.val i) := by
+    have hm : '`' ∉ strip start := by simpa using hbt
+    simp [hm, startBound, hne, resolveIndexInSpan, hbt, hi]
+  constructor
+  · simp only [resolveGroupSem, splitOn_append_sep ':' start stop hc1, splitOn_no_sep ':' stop hc2, resolveParts]
+    rw [hs, hstop]
+    rfl
+  · simp only [resolveGroupSem, splitOn_append_sep ':' start _ hc1, splitOn_append_sep ':' stop step hc2,
+      splitOn_no_sep ':' step hc3, resolveParts]
+    rw [hs, hstop]
+    rfl
+
+example : resolveGroupSem (listSpan []) (some ['1', ':', ':', '2']) = .ok (.slice (.val 1) .empty ['2']) := rfl
+
+/-- `_partial` (3): an expression without any backtick is not rewritten at all. -/
+theorem no_backtick_identity (sp : Span) (expr : List Char) (h : expr.contains '`' = false) :
+    resolveExpression sp expr = .ok expr := by
+  have hm : '`' ∉ expr := by simpa using h
+  simp [resolveExpression, hm]
+
+/-! ### Namespace -/
+
+/-- **Precedence.**  With `builtins=None` a name resolves to the caller's local if there is one, else to the
+    container variable, else to the helper of the package table. -/
+theorem namespace_precedence {V : Type} (w : NsWorld V) (vars : Dict V) (locals_ : Option (Dict V)) (k : String) :
+    ((assemble w none vars locals_).1.read (assemble w none vars locals_).2).get k =
+      (((locals_.getD []).get k).or ((vars.get k).or ((w.read 0).get k))) := by
+  simp [assemble, nsTarget, NsWorld.read, List.getD, Fsic.setAt_getElem?_eq, Dict.update, Dict.get,
+    List.lookup_append, Option.or_assoc]
+
+example : ((assemble (⟨[[("lag", 0), ("log", 1)]]⟩ : NsWorld Nat) none [("X", 10), ("lag", 11)] (some [("X", 20)])).1.read
+    (assemble (⟨[[("lag", 0), ("log", 1)]]⟩ : NsWorld Nat) none [("X", 10), ("lag", 11)] (some [("X", 20)])).2).get "lag"
+    = some 11 := by decide
+
+/-- **No mutation of the package-level helper table** (nor of any other pre-existing dict) when `builtins` is
+    `None`: the updates go to the deep copy.  (The container is not in this world at all: `eval` only reads it to
+    build `vars`.  With a caller-supplied `builtins` dict the updates go to THAT dict, as the code does.) -/
+theorem eval_no_mutation {V : Type} (w : NsWorld V) (vars : Dict V) (locals_ : Option (Dict V)) (l : Nat)
+    (hl : l < w.dicts.length) :
+    (assemble w none vars locals_).1.read l = w.read l := by
+  have hne : w.dicts.length ≠ l := by omega
+  simp [assemble, nsTarget, NsWorld.read, List.getD, Fsic.setAt_getElem?_ne _ _ _ _ hne,
+    List.getElem?_append_left hl]
 
 end Fsic.C16
